@@ -244,6 +244,15 @@ func runPair(ctx *hx.Ctx, pc *PairCase) (class, summary string, found bool) {
 }
 
 
+func reported(ctx *hx.Ctx, class string) bool {
+	for _, v := range ctx.Violations {
+		if v.Class == class {
+			return true
+		}
+	}
+	return false
+}
+
 func pairCanonical(pc *PairCase) string {
 	return fmt.Sprintf("pair %s %d %d %d %d %d", pc.Mode, pc.RemoteLen, pc.Div, pc.LocalExtra, pc.Seed, pc.BigTx)
 }
@@ -254,7 +263,7 @@ func doPair(ctx *hx.Ctx, pc *PairCase) {
 	ctx.Cov.Case(pairCanonical(pc), nontrivial, pc)
 	ctx.Cov.Count("pair_mode_" + pc.Mode)
 	ctx.Cov.Bucket("pair_head", pc.Div+pc.LocalExtra)
-	if class != "" {
+	if class != "" && !reported(ctx, class) {
 		ctx.Violation(class, summary, shrinkPair(ctx, pc, class), found)
 	}
 }
